@@ -654,13 +654,28 @@ class AtLeast(puan.Proposition):
             # than full len of propositions, then this
             # is a mixed of both
             if len(compounds) < len(self.propositions):
-                compounds.append(
-                    AtLeast(
-                        value=self.value,
-                        propositions=atoms,
-                        sign=self.sign,
+                if any(map(lambda x: x.bounds.lower < 0, atoms)) or (self.value != 1 and any(map(lambda x: x.bounds.upper > 1, atoms))):
+                    # Atoms are not boolean, so they cannot be counted
+                    # together with the compounds when moving inwards.
+                    # The plain negation is already exact.
+                    return negated
+                elif self.value == 1:
+                    compounds.append(
+                        AtLeast(
+                            value=self.value,
+                            propositions=atoms,
+                            sign=self.sign,
+                        )
                     )
-                )
+                else:
+                    # Each boolean atom counts on its own, so each
+                    # is wrapped to be negated on its own
+                    compounds.extend(
+                        map(
+                            lambda x: AtLeast(value=1, propositions=[x], sign=self.sign),
+                            atoms,
+                        )
+                    )
 
             negated.propositions = list(
                 map(
